@@ -9,7 +9,7 @@ from .. import gen, monitors
 PID = "C17"
 ANCHORS = ["utils.py:invert_pl_function", "scores.py:Scores.threshold_at_metric"]
 RAISES_ARE_VIOLATIONS = True
-DECIDING = {"M-ipl": 60000, "R-tam": 600}
+DECIDING = {"M-ipl": 133089, "R-tam": 350}
 THOROUGH_EXTRA = ["W2"]
 RULE = (
     "Every utils.invert_pl_function call (also via Scores.threshold_at_metric) is observed by M-ipl: one entry per target (scalar target: bare "
